@@ -670,6 +670,9 @@ func (w *World) snapshot() []ISnap {
 		for _, p := range w.pending {
 			if p.Inst == id {
 				s.Pend++
+				if p.TIssue >= in.lastStart {
+					s.PendCur++
+				}
 			}
 		}
 		for k := len(w.ops) - 1; k >= 0; k-- {
